@@ -98,6 +98,14 @@ func (fr *frame) callCounted(b *ssa.BasicBlock, site ssa.Instruction, c *ssa.Cal
 		res, nh := fr.call2(b, site, c, name, sig, rt, args, atypes, reach, h)
 		for _, cn := range matched {
 			x.regKey("$res:"+cn, "Int")
+			if x.resTypes == nil {
+				x.resTypes = map[string]types.Type{}
+			}
+			if tp, isT := rt.(*types.Tuple); isT && tp.Len() > 0 {
+				x.resTypes[cn] = tp.At(0).Type()
+			} else if rt != nil {
+				x.resTypes[cn] = rt
+			}
 			if len(res.ts) > 0 {
 				first := asInt(res.ts[0], leaves(rt)[0].Sort)
 				nh = nh.set("$res:"+cn, first)
@@ -243,6 +251,10 @@ func (fr *frame) countCall(c *ssa.CallCommon, name string, args []Val, atypes []
 		for i, a := range args {
 			ak := fmt.Sprintf("$arg:%s:%d", cn, i)
 			x.regKey(ak, "Int")
+			if x.resTypes == nil {
+				x.resTypes = map[string]types.Type{}
+			}
+			x.resTypes[ak] = atypes[i]
 			if len(a.ts) > 0 && a.fp == nil {
 				if _, isIface := atypes[i].Underlying().(*types.Interface); isIface && len(a.ts) == 2 {
 					h = h.set(ak, a.ts[1]) // interface arguments: the payload (boxed value / pointer), not the type tag
